@@ -32,6 +32,8 @@ SHAPES = {
     "txn_same_pid": [("txn", [0, 1], {"pid": 7}), ("ctl", 2, {"commit": False, "pid": 7}),
                      ("txn", [3, 4], {"pid": 7}), ("ctl", 5, {"commit": True, "pid": 7}), ("v2", [6])],
     "gz_v2": [("v2gz", [0, 1, 2]), ("v2", [3])],
+    # the smallest legal messages: null key and null value (26 bytes in v0, 34 in v1), alone and in a row
+    "legacy_null_records": [("v0n", [0]), ("v0n", [1, 2]), ("v1n", [3]), ("v0", [4])],
 }
 
 
@@ -49,6 +51,9 @@ def fill_log(cluster, tp, shape):
                         transactional=True, pid=extra["pid"])
             continue
         recs = [_rec(o) for o in offs]
+        if kind in ("v0n", "v1n"):
+            recs = [dict(offset=o, timestamp=1000 + o, key=None, value=None, headers=[]) for o in offs]
+            kind = kind[:2]
         stored = [(r["offset"], r["key"], r["value"], tuple(r["headers"]), r["timestamp"]) for r in recs]
         base = extra.get("base", offs[0] if offs else 0)
         last = extra.get("last", offs[-1] if offs else base)
@@ -167,7 +172,16 @@ async def run_program(loop, src, cluster, cfg, program_len, res):
     seek_targets = cfg["seek_targets"]
     ops = ["getone", "getmany", "getmany1", "seek", "pause", "resume", "position"] + list(cfg.get("race_ops", ()))
     trace = []
+    raised = []
+
+    def app_error(e, what):
+        # the log is well formed and only retriable faults are injected: no error belongs to the application
+        raised.append(repr(e))
+        src.check(False, f"{what} raised {type(e).__name__} to the application although the log is well formed", error=repr(e)[:200])
+
     for step in range(program_len):
+        if raised:
+            break
         op = ops[src.choice(f"op{step}", len(ops))]
         if op == "getone":
             try:
@@ -175,6 +189,9 @@ async def run_program(loop, src, cluster, cfg, program_len, res):
                 got = [r.offset]
             except asyncio.TimeoutError:
                 got = []
+            except E.KafkaError as e:
+                app_error(e, f"step {step} getone")
+                break
             trace.append(("getone", got))
             if m.paused:
                 src.check(not got, "getone returned a record from a paused partition", got=got)
@@ -186,7 +203,11 @@ async def run_program(loop, src, cluster, cfg, program_len, res):
                               remaining=m.expect()[:3])
         elif op in ("getmany", "getmany1"):
             mr = 1 if op == "getmany1" else None
-            d = await consumer.getmany(timeout_ms=1500, max_records=mr)
+            try:
+                d = await consumer.getmany(timeout_ms=1500, max_records=mr)
+            except E.KafkaError as e:
+                app_error(e, f"step {step} {op}")
+                break
             got = [r.offset for r in d.get(TP0, [])]
             trace.append((op, got))
             if mr:
@@ -225,7 +246,11 @@ async def run_program(loop, src, cluster, cfg, program_len, res):
                 done_before = blocked.done()
                 consumer.pause(TP0)
                 m.paused = True
-                d = await blocked
+                try:
+                    d = await blocked
+                except E.KafkaError as e:
+                    app_error(e, f"step {step} {op}")
+                    break
                 got = [r.offset for r in d.get(TP0, [])]
                 trace.append((op, o0, delay, done_before, got))
                 if done_before:
@@ -247,6 +272,9 @@ async def run_program(loop, src, cluster, cfg, program_len, res):
                     got = [r.offset] if op == "race_seek" else [x.offset for x in r.get(TP0, [])]
                 except asyncio.TimeoutError:
                     got = []
+                except E.KafkaError as e:
+                    app_error(e, f"step {step} {op}")
+                    break
                 trace.append((op, delay, o if sought else None, got))
                 if op == "race_oor_seek" and not sought:
                     # the out-of-range error was handled before the seek: position reset per policy
@@ -270,14 +298,18 @@ async def run_program(loop, src, cluster, cfg, program_len, res):
         m.paused = False
     rest = []
     for _ in range(12):
-        if not m.expect():
+        if not m.expect() or raised:
             break
-        d = await consumer.getmany(timeout_ms=1500)
+        try:
+            d = await consumer.getmany(timeout_ms=1500)
+        except E.KafkaError as e:
+            app_error(e, "drain getmany")
+            break
         got = [r.offset for r in d.get(TP0, [])]
         rest.append(got)
         if not m.deliver(src, got, "drain"):
             break
-    src.check(not m.expect(), "delivery does not reach the end of the log after faults ceased",
+    src.check(not m.expect() or bool(raised), "delivery does not reach the end of the log after faults ceased",
               remaining=m.expect()[:4], drain=rest[-3:], faults=cfg["faults"].log)
     p = await asyncio.wait_for(consumer.position(TP0), timeout=5.0)
     m.check_position(src, p, "final")
